@@ -196,7 +196,6 @@ class SymBool:
     """A condition that forks the path engine when coerced to ``bool``."""
 
     __slots__ = ("c",)
-    __array_priority__ = 2000
 
     def __init__(self, c):
         self.c = c
@@ -654,7 +653,6 @@ class Sym:
     """Exact scalar num / prod(f**e); immutable."""
 
     __slots__ = ("num", "den")
-    __array_priority__ = 1000
 
     def __init__(self, num, den=None):
         self.num = num
@@ -1214,8 +1212,8 @@ def _sqrt(s):
             m = q.numerator * q.denominator
             sq, rest = _square_part(m)
             r = Sym(c.root_atom(c.R(rest), 2).gen) * Fraction(sq, q.denominator)
-    elif len(n) <= 150:
-        co, facs = n.sqf_list()
+    elif len(n) <= 60 and _nvars(n) <= 7:
+        co, facs = _sqf_small(n)
         sq = c.one
         rest = c.R(co)
         for f, m in facs:
@@ -1253,6 +1251,46 @@ def _sqrt(s):
     return out
 
 
+def _nvars(p):
+    used = set()
+    for m in p.keys():
+        for i, e in enumerate(m):
+            if e:
+                used.add(i)
+    return len(used)
+
+
+_SMALL_RINGS = {}
+
+
+def _sqf_small(p):
+    """Square-free decomposition computed in the sub-ring of the generators that occur in p
+    (sympy's dense recursive algorithms are exponential in the number of ring generators)."""
+    c = CTX
+    used = sorted({i for m in p.keys() for i, e in enumerate(m) if e})
+    key = (id(c.R), tuple(used))
+    ent = _SMALL_RINGS.get(key)
+    if ent is None:
+        names = [(c.all_inputs + c.atom_names)[i] for i in used]
+        R2, *g2 = _ring(names, QQ)
+        ent = _SMALL_RINGS[key] = R2
+    R2 = ent
+    q = R2({tuple(m[i] for i in used): co for m, co in p.terms()})
+    co, facs = q.sqf_list()
+    n = c.ngen
+
+    def back(f):
+        d = {}
+        for m, cf in f.terms():
+            full = [0] * n
+            for i, e in zip(used, m):
+                full[i] = e
+            d[tuple(full)] = cf
+        return c.R(d)
+
+    return co, [(back(f), m) for f, m in facs]
+
+
 def _square_part(m):
     sq = 1
     rest = m
@@ -1269,7 +1307,6 @@ class LazyAbs:
     """|x| whose sign split is postponed: comparisons expand into one disjunctive condition."""
 
     __slots__ = ("x", "_f")
-    __array_priority__ = 1000
 
     def __init__(self, x):
         self.x = x
